@@ -29,9 +29,9 @@ theorem P1_mem : P1 ∈ clipTri T := by decide +kernel
 theorem T_det : triDet T = 25 / 4 := by decide +kernel
 theorem T_det_ne : triDet T ≠ 0 := by rw [T_det]; norm_num
 
-/-- `det3_bary` on the corners of the second piece: 6/25 · 25/4 = 3/2 -/
-example : det3 (baryPos T S2.a) (baryPos T S2.b) (baryPos T S2.c) = 3 / 2 ∧ orient2 S2.a S2.b S2.c = 6 / 25 ∧
-    triDet P2 = 3 / 2 := by decide +kernel
+/-- `det3_bary` on the corners of the second piece: 1/5 · 25/4 = 5/4 -/
+example : det3 (baryPos T S2.a) (baryPos T S2.b) (baryPos T S2.c) = 5 / 4 ∧ orient2 S2.a S2.b S2.c = 1 / 5 ∧
+    triDet P2 = 5 / 4 := by decide +kernel
 
 example := clip_det3 T T_wf T_len
 
@@ -75,8 +75,63 @@ example : ∃ q' : Pt Rat, Visible T q' ∧ centre 2 2 = projV 0 4 0 4 (baryPos 
   inside_piece_visible 0 4 0 4 T T_wf T_len P2 P2_mem (by decide +kernel) (by decide +kernel)
     (by decide +kernel) 2 2 (by decide +kernel)
 
-/-- the fragment of the covering piece is `visFrag T q 2 2` = [5/2, 5/2, 1, 6] -/
-example : pixFrag (viewportMat 0 4 0 4) P2 2 2 = visFrag T q 2 2 ∧ visFrag T q 2 2 = [5/2, 5/2, 1, 6] := by
+/-- the fragment of the covering piece is `visFrag T q 2 2` = [5/2, 5/2, 1, 9/2] -/
+example : pixFrag (viewportMat 0 4 0 4) P2 2 2 = visFrag T q 2 2 ∧ visFrag T q 2 2 = [5/2, 5/2, 1, 9/2] := by
   decide +kernel
+
+/-! ### The `render` theorems on the one-triangle scene `[T]`, 4×4 target of `NVI` -/
+
+def vs : List (Vec4 Rat × List Rat) :=
+  [(⟨-1/2, -1/2, 0, 1⟩, [0]), (⟨2, -1/2, 0, 1⟩, [5]), (⟨-1/2, 2, 0, 1⟩, [10])]
+def tris : List (Nat × Nat × Nat) := [(0, 1, 2)]
+def cN : Ctx := { faceCull := none }
+def cB : Ctx := {}
+
+theorem inp : inputTris vs tris = [T] := by decide +kernel
+theorem hverts : ∀ v ∈ vs, v.1.w = 1 ∧ v.2.length = 1 := by decide +kernel
+
+/-- No culling: every hypothesis of `render_pixel_c01_visible` holds for `T`, `q`, pixel (2,2); the pixel ends
+with a depth slot ≥ 1 = 1/w(q) (it held 0). -/
+theorem scene_nearest : ∃ t' st, render cN NVI.sh (viewportMat 0 4 0 4) tris vs NVI.t0 = .ok (t', st) ∧
+    WFD t' 4 4 ∧ ∃ c' d', pix t' 2 2 = some (c', d') ∧ 1 ≤ d' := by
+  obtain ⟨t', st, hr, hwf', h⟩ := render_pixel_c01_visible _ affineInv cN ⟨rfl, rfl, rfl⟩ NVI.sh 0 4 0 4 4 4 1
+    (by omega) (by omega) (by omega) (by omega) tris vs (by decide) hverts NVI.t0 NVI.hwf
+  refine ⟨t', st, hr, hwf', ?_⟩
+  have hw : (baryPos T q).w = 1 := by decide +kernel
+  have := h 2 2 0 0 (by decide +kernel) T (by rw [inp]; simp) (by decide +kernel) T_nd T_det_ne q q_visible q_off
+    q_centre (by simp [NVI.sh])
+  rwa [hw, div_one] at this
+
+/-- Back-face culling (the default Context): `T` is culled as a whole (`cullsInput`), so by
+`render_pixel_untouched_visible` every pixel keeps its content — although `T` covers pixel (2,2). -/
+theorem scene_culled : ∃ t' st, render cB NVI.sh (viewportMat 0 4 0 4) tris vs NVI.t0 = .ok (t', st) ∧
+    WFD t' 4 4 ∧ ∀ x y, pix t' x y = pix NVI.t0 x y := by
+  obtain ⟨t', st, hr, hwf', h⟩ := render_pixel_untouched_visible _ affineInv cB NVI.sh 0 4 0 4 4 4 1
+    (by omega) (by omega) (by omega) (by omega) tris vs (by decide) hverts NVI.t0 NVI.hwf
+  refine ⟨t', st, hr, hwf', fun x y => h x y ?_⟩
+  intro t0 ht0
+  rw [inp, List.mem_singleton] at ht0
+  subst ht0
+  exact Or.inl (by decide +kernel)
+
+/-- Without culling a pixel off the visible part is untouched: pixel (3,3), centre NDC (3/4, 3/4), is outside `T`
+(u + v = 1 is the line x + y = 3/2 in NDC). -/
+theorem scene_outside : ∃ t' st, render cN NVI.sh (viewportMat 0 4 0 4) tris vs NVI.t0 = .ok (t', st) ∧
+    WFD t' 4 4 ∧ pix t' 3 3 = pix NVI.t0 3 3 := by
+  obtain ⟨t', st, hr, hwf', h⟩ := render_pixel_untouched_visible _ affineInv cN NVI.sh 0 4 0 4 4 4 1
+    (by omega) (by omega) (by omega) (by omega) tris vs (by decide) hverts NVI.t0 NVI.hwf
+  refine ⟨t', st, hr, hwf', h 3 3 ?_⟩
+  intro t0 ht0
+  rw [inp, List.mem_singleton] at ht0
+  subst ht0
+  refine Or.inr fun q' hq' hc => ?_
+  obtain ⟨⟨h1, h2, h3⟩, -⟩ := hq'
+  have e : centre 3 3 = ((7 / 2 : Rat), (7 / 2 : Rat)) := by decide +kernel
+  rw [e] at hc
+  simp only [projV, proj, baryPos, comb4, T, mkVert, Prod.mk.injEq] at hc
+  obtain ⟨c1, c2⟩ := hc
+  have e1 : (1 - q'.1 - q'.2 + q'.1 + q'.2 : Rat) = 1 := by ring
+  norm_num [e1] at c1 c2
+  linarith
 
 end Retro.Props.C01.VisEx
